@@ -505,14 +505,14 @@ O(id='NativeEnumerated_uper', props=['C01', 'C02', 'C08', 'C13'], kind='bounded'
 STUBM = 'member type is a harness stub (2-octet restartable value: RC_WMORE until complete, RC_FAIL on 0xFF); descriptor laid out by hand in the shape asn1c emits'
 SQO = dict(harness='harness/h_seq_oer.c', units=[SK + 'constr_SEQUENCE_oer.c', SK + 'constr_SEQUENCE.c'],
            link=[SK + 'constr_SEQUENCE.c', SK + 'asn_bit_data.c', SK + 'oer_support.c', SK + 'oer_decoder.c'],
-           fp_restrict=[(r'oer_decoder\)$', ['sv_oer']), (r'free_struct\)$', ['sv_free'])], trusted=[STUBM, 'stubs/memcpy16.c, stubs/calloc96.c replace the CBMC memcpy / calloc models'], stubs=['stubs/memcpy16.c', 'stubs/calloc96.c'])
+           fp_restrict=[(r'oer_decoder\)$', ['sv_oer']), (r'free_struct\)$', ['sv_free'])], trusted=[STUBM, 'stubs/memcpy16.c replaces the CBMC memcpy model'], stubs=['stubs/memcpy16.c'])
 for _e, _n, _u in ((0, 8, 11), (1, 10, 13)):
     _bd = 'SEQUENCE { a, b OPTIONAL, c%s } of stub members; every input of at most %d octets%s' % (', ..., d' if _e else '', _n, ' whose extension-addition bitmap is one octet' if _e else '')
     O(id='SEQUENCE_decode_oer.e%d' % _e, props=['C04', 'C14', 'C03'], kind='bounded', tier='experimental' if _e else 'quick', entry='h_SEQUENCE_decode_oer', functions=['SEQUENCE_decode_oer', 'SEQUENCE_free', 'asn_bit_data_new_contiguous', 'asn_get_few_bits', 'oer_open_type_get', 'oer_open_type_skip', 'oer_fetch_length'],
-      defines=['VF_EXT=%d' % _e, 'VF_N=%d' % _n], unwind=_u, cbmc=['--unwindset', 'asn_get_few_bits:3,memcpy.0:18,calloc.0:98', '--malloc-may-fail', '--malloc-fail-null', '--memory-leak-check'],
+      defines=['VF_EXT=%d' % _e, 'VF_N=%d' % _n], unwind=_u, cbmc=['--unwindset', 'asn_get_few_bits:3,memcpy.0:18', '--malloc-may-fail', '--malloc-fail-null', '--memory-leak-check'],
       bound=_bd + ' in an exact-size heap buffer; every allocation may fail', min_props=80, timeout=1500, mem_gb=30, **SQO)
     O(id='SEQUENCE_decode_oer.chunk2.e%d' % _e, props=['C05'], kind='bounded', tier='experimental', entry='h_SEQUENCE_decode_oer_chunked', functions=['SEQUENCE_decode_oer', 'asn_get_few_bits', 'asn_get_undo', 'oer_open_type_get', 'oer_open_type_skip'],
-      defines=['VF_EXT=%d' % _e, 'VF_N=%d' % _n], unwind=_u, cbmc=['--unwindset', 'asn_get_few_bits:3,memcpy.0:18,calloc.0:98', '--no-malloc-may-fail'],
+      defines=['VF_EXT=%d' % _e, 'VF_N=%d' % _n], unwind=_u, cbmc=['--unwindset', 'asn_get_few_bits:3,memcpy.0:18', '--no-malloc-may-fail'],
       bound=_bd + '; every split point k (two chunks)', min_props=80, timeout=1500, mem_gb=30, **SQO)
 
 SFO = dict(harness='harness/h_setof_oer.c', units=[SK + 'constr_SET_OF_oer.c', SK + 'constr_SET_OF.c', SK + 'asn_SET_OF.c'],
@@ -531,11 +531,11 @@ SQB = dict(harness='harness/h_seq_ber.c', units=[SK + 'constr_SEQUENCE.c', SK + 
 for _v, _n, _d in ((0, 11, 'SEQUENCE { a [0] OPTIONAL, b CHOICE OPTIONAL (untagged: tag2el/bsearch path), c [2] }'), (1, 11, 'SEQUENCE { a [0] OPTIONAL, c [2], ..., b CHOICE OPTIONAL }, unknown additions primitive')):
     O(id='SEQUENCE_decode_ber.v%d' % _v, props=['C04', 'C14'], kind='bounded', tier='experimental', entry='h_SEQUENCE_decode_ber',
       functions=['SEQUENCE_decode_ber', 'ber_check_tags', 'ber_fetch_tag', 'ber_fetch_length', 'ber_skip_length', '_t2e_cmp', 'SEQUENCE_free'],
-      defines=['VF_V=%d' % _v, 'VF_N=%d' % _n], unwind=_n + 3, cbmc=['--unwindset', 'ber_skip_length:2', '--malloc-may-fail', '--malloc-fail-null', '--memory-leak-check'],
+      defines=['VF_V=%d' % _v, 'VF_N=%d' % _n], unwind=9, cbmc=['--unwindset', 'ber_skip_length:2,ber_fetch_tag.0:%d,ber_fetch_length.0:%d,h_SEQUENCE_decode_ber.0:%d,h_SEQUENCE_decode_ber.1:%d,h_SEQUENCE_decode_ber.2:%d' % ((_n + 3,) * 5), '--malloc-may-fail', '--malloc-fail-null', '--memory-leak-check'],
       bound=_d + '; every input of at most %d octets in an exact-size heap buffer; every allocation may fail' % _n, min_props=80, timeout=1800, **SQB)
     O(id='SEQUENCE_decode_ber.chunk2.v%d' % _v, props=['C05', 'C03'], kind='bounded', tier='experimental', entry='h_SEQUENCE_decode_ber_chunked',
       functions=['SEQUENCE_decode_ber', 'ber_check_tags', 'ber_fetch_tag', 'ber_fetch_length', 'ber_skip_length', '_t2e_cmp'],
-      defines=['VF_V=%d' % _v, 'VF_N=%d' % _n], unwind=_n + 3, cbmc=['--unwindset', 'ber_skip_length:2', '--no-malloc-may-fail'],
+      defines=['VF_V=%d' % _v, 'VF_N=%d' % _n], unwind=9, cbmc=['--unwindset', 'ber_skip_length:2,ber_fetch_tag.0:%d,ber_fetch_length.0:%d,h_SEQUENCE_decode_ber_chunked.0:%d,h_SEQUENCE_decode_ber_chunked.1:%d' % ((_n + 3,) * 4), '--no-malloc-may-fail'],
       bound=_d + '; every split point k of every input of at most %d octets (two chunks)' % _n, min_props=80, timeout=1800, **SQB)
 
 SFB = dict(harness='harness/h_setof_ber.c', units=[SK + 'constr_SET_OF.c', SK + 'asn_SET_OF.c', SK + 'ber_decoder.c'],
@@ -603,11 +603,29 @@ O(id='SET_OF_constraint', props=['C08'], kind='bounded', entry='h_SET_OF_constra
 O(id='CHOICE_constraint', props=['C08'], kind='bounded', entry='h_CHOICE_constraint', functions=['CHOICE_constraint', '_fetch_present_idx'],
   bound='CHOICE of 2 alternatives (inline with member-level constraint, pointer with type-level constraint): every presence index 0..3', min_props=20, **CW)
 
+CHO = dict(harness='harness/h_choice_oer.c', units=[SK + 'constr_CHOICE.c', SK + 'constr_CHOICE_oer.c', SK + 'oer_decoder.c', SK + 'oer_encoder.c', SK + 'oer_support.c'],
+           link=[SK + 'constr_CHOICE.c', SK + 'oer_decoder.c', SK + 'oer_encoder.c', SK + 'oer_support.c', SK + 'constr_TYPE.c', SK + 'ber_tlv_tag.c'], stubs=['stubs/bsearch.c'],
+           fp_restrict=[(r'oer_decoder\)$', ['sv_oer']), (r'oer_encoder\)$', ['sv_enc']), (r'free_struct\)$', ['sv_free']), (r'compar$', ['_search4tag']), (r'::cb$', ['vf_cb', 'oer__count_bytes'])],
+           trusted=[STUBM, 'stubs/bsearch.c'])
+for _x, _d in ((0, 'CHOICE { x [1], y [3] }'), (1, 'CHOICE { x [1], ..., y [3] }')):
+    O(id='CHOICE_decode_oer.x%d' % _x, props=['C04', 'C14'], kind='bounded', entry='h_CHOICE_decode_oer',
+      functions=['CHOICE_decode_oer', 'oer_fetch_tag', 'oer_open_type_get', 'CHOICE_variant_set_presence', 'CHOICE_free'],
+      defines=['VF_X=%d' % _x, 'VF_N=6', 'VF_CB_CAP=8'], unwind=10, cbmc=['--malloc-may-fail', '--malloc-fail-null', '--memory-leak-check'],
+      bound=_d + ' of stub alternatives; every input of at most 6 octets in an exact-size heap buffer; every allocation may fail', min_props=80, timeout=1200, **CHO)
+    O(id='CHOICE_decode_oer.chunk2.x%d' % _x, props=['C05', 'C03'], kind='bounded', entry='h_CHOICE_decode_oer_chunked',
+      functions=['CHOICE_decode_oer', 'oer_fetch_tag', 'oer_open_type_get', 'CHOICE_variant_set_presence'],
+      defines=['VF_X=%d' % _x, 'VF_N=6', 'VF_CB_CAP=8'], unwind=10, cbmc=['--no-malloc-may-fail'],
+      bound=_d + ' of stub alternatives; every split point of every input of at most 6 octets (two chunks)', min_props=80, timeout=1200, **CHO)
+    O(id='CHOICE_encode_oer.x%d' % _x, props=['C01', 'C02', 'C07'], kind='bounded', entry='h_CHOICE_encode_oer',
+      functions=['CHOICE_encode_oer', 'CHOICE_decode_oer', 'oer_put_tag', 'oer_open_type_put', 'asn_TYPE_outmost_tag'],
+      defines=['VF_X=%d' % _x, 'VF_N=6', 'VF_CB_CAP=8'], unwind=10, cbmc=['--no-malloc-may-fail'],
+      bound=_d + ' of stub alternatives; every presence index 0..3 and value', min_props=80, timeout=1200, **CHO)
+
 for _o in OBLIGATIONS:
     if _o.get('enforce') and _o.get('kind') in ('enforce', 'width') and _o.get('tier') == 'quick' and 'C19' not in _o['props']:
         _o['props'] = _o['props'] + ['C19']
 
-CONSTR = 'constructed codecs (SEQUENCE_*, SET_*, CHOICE_*, SET_OF_* / SEQUENCE_OF_* encode/decode for BER, OER, UPER), for arbitrary and for generated descriptors: symbolic execution of SEQUENCE_decode_ber on a generated 2-member descriptor does not finish in 10 minutes; the modular route (replace ber_fetch_tag/ber_check_tags/member decoders by contracts under dfcc) is not built'
+CONSTR = 'constructed codecs beyond the stub-member obligations: the container logic of SEQUENCE (BER decode, DER/OER/UPER encode, OER/UPER decode without extension additions), SET OF (BER/OER decode, DER encode), CHOICE (BER decode) and the four constraint walkers is covered for hand-laid descriptors of 1..5 stub members and inputs of at most 8..11 octets (bounded); not covered: SET (constr_SET.c codecs), CHOICE OER/UPER/DER, SET OF UPER/OER encode, SEQUENCE OER/UPER with extension additions (obligations experimental: the SAT back end runs out of memory on allocations of symbolic size), nesting of real constructed types inside each other, descriptors as the compiler generates them'
 GEN = 'everything the compiler emits as text: type descriptor tables (emit_type_DEF, emit_member_table), constraint checkers (asn1c_emit_constraint_checking_code), tag maps, selector tables'
 XERU = 'all XER encoders/decoders (xer_decode_general, pxml_parse, OCTET_STRING hex/binary/entity bodies, REAL/INTEGER text forms through snprintf/strtod)'
 UNVERIFIED = {
@@ -616,14 +634,14 @@ UNVERIFIED = {
  'C03': [CONSTR, XERU, 'OCTET_STRING_decode_ber constructed reassembly (obligation experimental)', 'uper_open_type_skip', 'ber_skip_length (obligation experimental: recursion does not discharge)'],
  'C04': [CONSTR, XERU, 'OCTET_STRING_decode_ber (experimental)', 'per_opentype.c', 'UTF8String__process, OCTET_STRING_per_get_characters', 'unber (experimental)'],
  'C05': [CONSTR + ' -- i.e. every phase/step machine that saves a context across calls', XERU],
- 'C06': ['SET_OF__encode_sorted / SET_OF_encode_der / SET_OF_encode_uper (only the comparator _el_buf_cmp is covered)', 'DEFAULT omission in SEQUENCE encoders (try_inline_default emits text)', 'CANONICAL-XER', 'decode-from-variant then re-encode for constructed types'],
+ 'C06': ['SET_OF_encode_uper (canonical ordering for PER); SET OF lists of more than 3 elements', 'the default_value_cmp functions themselves (try_inline_default emits text)', 'CANONICAL-XER', 'decode-from-variant then re-encode for constructed types'],
  'C07': ['asn_encode_to_buffer / asn_encode_to_new_buffer / uper_encode_to_buffer / uper_encode_to_new_buffer with a UPER type encoder: obligations exist (tier experimental) but do not discharge (symbolic-length memcpy of the 32-octet bit scratch space runs out of memory); asn_encode with UPER is covered',
          'every constructed / generated type encoder is assumed to follow the operation-slot convention enumerated by the stub encoder', XERU,
          'NULL_encode_der and other type encoders not listed under functions_under_contract'],
- 'C08': [GEN, 'container walkers SEQUENCE_constraint / SET_constraint / CHOICE_constraint / SET_OF_constraint', 'UTF8String_constraint / UTF8String__process', 'OBJECT_IDENTIFIER_constraint'],
+ 'C08': [GEN, 'UTF8String_constraint / UTF8String__process', 'OBJECT_IDENTIFIER_constraint'],
  'C09': ['asn1constraint_compute_constraint_range (recursion over parsed constraint ASTs, value resolution), asn1constraint_pullup, asn1f_resolve_constraints', '_range_intersection (obligations experimental: out of memory / time), _range_union with three or more pieces, _range_canonicalize', 'emit_single_member_OER_constraint_size, alphabet-size branch of emit_single_member_PER_constraint', 'the consequence clause (same root set => same encoding) follows only as far as the tree evaluation is covered, i.e. it is not claimed'],
  'C13': ['options acting in the code generator (-fcompound-names, -findirect-choice, -fno-include-deps, -fincludes-quoted, -fno-constraints, codec disabling): properties of emitted text', 'NativeReal vs REAL, NativeEnumerated vs ENUMERATED', 'pointer-vs-inline members in constructed codecs'],
- 'C14': [CONSTR + ' (SEQUENCE_free, SET_OF_free, CHOICE_free and the failure paths of the constructed decoders)', XERU, 'asn_set_add/del/empty obligation is experimental (realloc model runs out of memory)', 'uper_open_type_put leak obligation experimental'],
+ 'C14': [CONSTR, XERU, 'asn_set_add/del/empty obligation is experimental (realloc model runs out of memory)', 'uper_open_type_put leak obligation experimental'],
  'C15': ['machine stack depth: not expressible (CBMC has no stack-size notion; ASN__STACK_OVERFLOW_CHECK compares addresses of different objects)', CONSTR, 'OCTET_STRING_decode_ber expectation stack'],
  'C16': ['asn_REAL2double on arbitrary REAL encodings (only encodings produced by asn_double2REAL are covered, in the thorough tier); decimal NR1-3 forms (strtod)', 'decimal parsers beyond 7 characters except the overflow-boundary neighbourhood', 'asn_INTEGER2imax/umax beyond 24 octets'],
  'C17': ['asn_GT2time*, asn_time2GT*, asn_UT2time, asn_time2UT: not applicable (libc calendar, TZ)', 'OBJECT_IDENTIFIER_parse_arcs, OBJECT_IDENTIFIER_get_arcs beyond 4 arcs, RELATIVE-OID'],
